@@ -46,6 +46,56 @@ def SELECT(name):
     return not cm.documented_fatal(name)
 
 
+def keyvals_termination_bounded(seed):
+    """termination is outside the deductive part (partial correctness).
+    Bounded stand-in for the one parser loop that re-reads what its callee
+    pushes back (Parser.parse_keyvals_list calls arg_buffer on an opening
+    brace): every option string of <= 4 pieces over {a, =, ",", {, }, blank}
+    in \\usepackage[..]{x} must be processed within the time limit"""
+    import itertools
+    import signal
+    import io
+    import contextlib
+    from pyvc import replay as _r
+    t2t = _r.real_module('yalafi.tex2txt')
+
+    class Hang(Exception):
+        pass
+
+    def on_alarm(signum, frame):
+        raise Hang()
+    old = signal.signal(signal.SIGALRM, on_alarm)
+    n, fails = 0, []
+    try:
+        for ln in range(0, 5):
+            for t in itertools.product('a=,{} ', repeat=ln):
+                opt = ''.join(t)
+                src = '\\usepackage[' + opt + ']{x} B'
+                n += 1
+                signal.setitimer(signal.ITIMER_REAL, 2.0)
+                try:
+                    with contextlib.redirect_stderr(io.StringIO()):
+                        t2t.tex2txt(src, t2t.Options())
+                except Hang:
+                    fails.append({'input': src, 'why': 'no result after 2 s'})
+                except Exception as e:      # noqa
+                    fails.append({'input': src, 'why': 'exception %r' % (e,)})
+                finally:
+                    signal.setitimer(signal.ITIMER_REAL, 0)
+                if len(fails) >= 3:
+                    break
+            if len(fails) >= 3:
+                break
+    finally:
+        signal.signal(signal.SIGALRM, old)
+    return {'name': 'keyvals-option-lists-terminate', 'bounded': True,
+            'bound': 'all option strings of <= 4 characters over '
+                     '{a,=,comma,{,},blank}; 2 s per input',
+            'evaluations': n, 'failures': fails}
+
+
+QUICK_BOUNDED = [keyvals_termination_bounded]
+
 TRUSTED = cm.TRUSTED_CORE
 ASSUMPTIONS = cm.ASSUME_CORE + [
     'termination and recursion depth of the expander are not decided',
